@@ -33,6 +33,8 @@ def opts(tier):
     o.max_channels = 4
     o.props = False
     o.many_segments_p = 0.01
+    o.short_last_p = 0.05
+    o.equal_shapes_p = 0.15
 
     def scaling(rng, spec, ctype):
         if rng.random() < 0.35:
@@ -96,7 +98,7 @@ def access_paths(tf, w, path, mode, n, file_chunks, keeper=None):
         def chunks():
             parts = []
             count = 0
-            for ck in c.data_chunks():
+            for ck in (list(c.data_chunks()) if (n % 2) else c.data_chunks()):
                 if ck.offset != count:
                     raise AssertionError('chunk offset %d, %d values delivered before' % (ck.offset, count))
                 d = ck[:]
@@ -113,12 +115,15 @@ def access_paths(tf, w, path, mode, n, file_chunks, keeper=None):
     return out
 
 
-def collect_file_chunks(tf):
+def collect_file_chunks(tf, retained=False):
+    """retained=True: the whole stream is collected first (list(f.data_chunks())) and inspected afterwards, the
+    way a consumer that batches or looks ahead uses it; otherwise each chunk is inspected inside the loop."""
     parts = {}
     counts = {}
     err = None
     try:
-        for chunk in tf.data_chunks():
+        stream = list(tf.data_chunks()) if retained else tf.data_chunks()
+        for chunk in stream:
             for g in chunk.groups():
                 for cc in g.channels():
                     p = cc._channel.path
@@ -180,7 +185,9 @@ def execute(case):
             opened.append(tf)
             file_chunks = None
             if h['mode'] == 'open':
-                file_chunks, err = collect_file_chunks(tf)
+                file_chunks, err = collect_file_chunks(tf, retained=(hi % 2 == 1))
+                if hi % 2 == 1:
+                    res.probe('file-chunks-inspected-after-the-stream-ended')
                 res.probe('file-level-chunks')
                 if err is not None:
                     res.violations.append(V('C03.raises', 'handle %s: TdmsFile.data_chunks() raised %s: %s' % (h, err[1], err[2]),
